@@ -259,8 +259,10 @@ func Run(c *evid.Ctx) {
 		var in3 []*vals.Spec
 		in3 = append(in3, reps[:6]...)
 		containers(reps[:6], 1, func(s *vals.Spec) { in3 = append(in3, s) })
+		// (width 2 here made the depth-3 level 220 M terms and 47 minutes; singletons keep every
+		// nesting of three container kinds over every representative, 0.3 M terms)
 		var mid []*vals.Spec
-		containers(in3, 2, func(s *vals.Spec) { mid = append(mid, s) })
+		containers(in3, 1, func(s *vals.Spec) { mid = append(mid, s) })
 		parallelGen(func(emit func(*vals.Spec)) {
 			containers(append(append([]*vals.Spec{}, reps[:4]...), mid...), 2, emit)
 		}, run)
